@@ -78,6 +78,20 @@ func (h hist) ret(t, op string, res int) {
 	h.w.Emit(map[string]any{"ev": "ret", "t": t, "op": op, "id": 0, "snd": "", "prio": 0, "res": res})
 }
 
+// lbuf is a per-goroutine event buffer: sequence numbers come from one atomic counter (taken before a call
+// and after its return), so recording does not serialize the goroutines under test on a lock.
+type lbuf struct {
+	w   *vtrace.Writer
+	evs []map[string]any
+}
+
+func (b *lbuf) call(t, op string, id int, snd string, prio int) {
+	b.evs = append(b.evs, map[string]any{"seq": b.w.NextSeq(), "ev": "call", "t": t, "op": op, "id": id, "snd": snd, "prio": prio, "res": 0})
+}
+func (b *lbuf) ret(t, op string, res int) {
+	b.evs = append(b.evs, map[string]any{"seq": b.w.NextSeq(), "ev": "ret", "t": t, "op": op, "id": 0, "snd": "", "prio": 0, "res": res})
+}
+
 func b2i(b bool) int {
 	if b {
 		return 1
@@ -290,6 +304,11 @@ func stress(kind string, capacity, nprod, nmsgs, histories int, seed int64, h hi
 			mkind = strings.TrimSuffix(kind, "_fill")
 			fillFirst = true
 		}
+		churn := false
+		if strings.HasSuffix(kind, "_churn") { // producers retry rejected messages while the consumer keeps freeing slots
+			mkind = strings.TrimSuffix(kind, "_churn")
+			churn = true
+		}
 		prefill := 0
 		if kind == "segroll" { // segmented mailbox driven across a 256-slot segment boundary
 			mkind = "seg"
@@ -310,6 +329,16 @@ func stress(kind string, capacity, nprod, nmsgs, histories int, seed int64, h hi
 				}
 			}
 		}
+		var bufs []*lbuf
+		var bufMu sync.Mutex
+		newBuf := func() *lbuf {
+			b := &lbuf{w: h.w}
+			bufMu.Lock()
+			bufs = append(bufs, b)
+			bufMu.Unlock()
+			return b
+		}
+		ch := newBuf() // the consumer's buffer
 		var wg sync.WaitGroup
 		total := nprod * nmsgs
 		var accepted int64
@@ -331,16 +360,26 @@ func stress(kind string, capacity, nprod, nmsgs, histories int, seed int64, h hi
 				yields[k] = rng.Intn(4)
 			}
 			wg.Add(1)
+			ph := newBuf()
 			go func() {
+				h := ph
 				defer wg.Done()
 				for k := 1; k <= nmsgs; k++ {
 					for y := 0; y < yields[k-1]; y++ {
 						runtime.Gosched()
 					}
 					id := p*10 + k
+					if churn {
+						id = p*1000 + k
+					}
 					h.call(name, "enq", id, sndName, prios[k-1])
 					err := m.Enqueue(actor.VerifPooledContext(snd, &Msg{ID: id, Prio: prios[k-1]}))
 					h.ret(name, "enq", b2i(err == nil))
+					for tries := 0; churn && err != nil && tries < 30; tries++ { // hammer the near-full level
+						h.call(name, "enq", id, sndName, prios[k-1])
+						err = m.Enqueue(actor.VerifPooledContext(snd, &Msg{ID: id, Prio: prios[k-1]}))
+						h.ret(name, "enq", b2i(err == nil))
+					}
 					if err == nil {
 						accMu.Lock()
 						accepted++
@@ -363,12 +402,15 @@ func stress(kind string, capacity, nprod, nmsgs, histories int, seed int64, h hi
 				runtime.Gosched()
 			}
 			if rng.Intn(4) == 0 {
-				h.call("c", "empty", 0, "", 0)
-				h.ret("c", "empty", b2i(m.IsEmpty()))
+				ch.call("c", "empty", 0, "", 0)
+				ch.ret("c", "empty", b2i(m.IsEmpty()))
 			}
-			h.call("c", "deq", 0, "", 0)
+			if churn {
+				time.Sleep(150 * time.Microsecond) // leave the mailbox full most of the time: producers race for each freed slot
+			}
+			ch.call("c", "deq", 0, "", 0)
 			r := msgID(m.Dequeue())
-			h.ret("c", "deq", r)
+			ch.ret("c", "deq", r)
 			if r != 0 {
 				got++
 			} else {
@@ -384,19 +426,24 @@ func stress(kind string, capacity, nprod, nmsgs, histories int, seed int64, h hi
 				} else if r == 0 {
 					// producers are done, queue reports empty, but accepted messages are missing:
 					// record a final probe and stop (the monitor decides)
-					h.call("c", "empty", 0, "", 0)
-					h.ret("c", "empty", b2i(m.IsEmpty()))
+					ch.call("c", "empty", 0, "", 0)
+					ch.ret("c", "empty", b2i(m.IsEmpty()))
 					finished = true
 				}
 			default:
 			}
 		}
 		<-prodDone
-		h.call("c", "deq", 0, "", 0)
-		h.ret("c", "deq", msgID(m.Dequeue()))
-		h.call("c", "empty", 0, "", 0)
-		h.ret("c", "empty", b2i(m.IsEmpty()))
+		ch.call("c", "deq", 0, "", 0)
+		ch.ret("c", "deq", msgID(m.Dequeue()))
+		ch.call("c", "empty", 0, "", 0)
+		ch.ret("c", "empty", b2i(m.IsEmpty()))
 		m.Dispose()
+		var all []map[string]any
+		for _, b := range bufs {
+			all = append(all, b.evs...)
+		}
+		h.w.EmitBuffered(all)
 	}
 	h.w.Raw(map[string]any{"ev": "New"})
 }
